@@ -13,7 +13,7 @@ pub static PROP: Prop = Prop {
     title: "Results do not depend on unspecified choices of the array backend",
     check,
     max_tape: (520, 900),
-    cases: (40_000, 800_000),
+    cases: (100_000, 1_000_000),
     both_profiles: false,
     rule: "the generators of C01, C02, C12, C14, C15, C16, C17 and C18 crossed with a 12-bit configuration of a second, contract-conforming array backend (argsort tie order, component numbering, sparse-bincount key order, scatter filler each resolved in 1 of 8 ways); the same public operation is run at VecKind and at the second backend and structural results are compared up to isomorphism, predicate / evaluation / morphism outcomes for equality, layerings by the validity predicate with identical unvisited flags; non-trivial = configuration != 0 and the case actually exercised an open choice (counted inside the backend); distinct = hash of (group, configuration, generated data)",
     assumptions: &[
@@ -169,24 +169,17 @@ fn run_group(t: &mut Tape, ctx: &mut Ctx, cfg: u64, group: usize) -> CheckResult
         }
         _ => {
             ctx.class("group:morphisms");
-            // an inclusion (possibly flawed) as in C18, through both backends
-            let mut g = gen::diagram(t, &sz, al, ctx);
-            g.s.clear();
-            g.t.clear();
-            let n = g.nodes.len();
-            let ne = g.edges.len();
-            // identity-like inclusion of a random subset of edges, all nodes
-            let keep: Vec<usize> = (0..ne).filter(|_| t.chance(1, 2)).collect();
-            let mut h = g.clone();
-            h.edges = keep.iter().map(|&e| g.edges[e].clone()).collect();
-            let mut w: Vec<usize> = (0..n).collect();
-            if n > 1 && t.chance(1, 4) {
-                let i = t.choice(n);
-                w[i] = t.choice(n);
+            // inclusions, folds and flawed inclusions as in C18, through both backends
+            let base = super::c18::hyper(t, ctx, al);
+            let mut a = if t.chance(1, 4) { super::c18::fold(t, &base) } else { super::c18::inclusion(t, &base) };
+            if t.chance(1, 4) {
+                super::c18::plant_flaw(t, &mut a, al);
             }
-            ctx.set_dump(format!("config {cfg:#x}\nH = {}\nG = {}\nw = {:?} x = {:?}", h.pretty(), g.pretty(), w, keep));
-            let v = sv::op_arrow(&h, &g, (&w, n), (&keep, ne));
-            let (a, used) = with_adv(cfg, || sa::op_arrow(&h, &g, (&w, n), (&keep, ne)));
+            let (h, g, w, keep) = (a.h.clone(), a.g.clone(), a.w.clone(), a.x.clone());
+            ctx.set_dump(format!("config {cfg:#x}\nH = {}\nG = {}\nw = {:?} -> {} x = {:?} -> {}", h.pretty(), g.pretty(), w, a.wt, keep, a.xt));
+            let v = sv::op_arrow(&h, &g, (&w, a.wt), (&keep, a.xt));
+            let (r, used) = with_adv(cfg, || sa::op_arrow(&h, &g, (&w, a.wt), (&keep, a.xt)));
+            let a = r;
             ctx.sub("morphisms-backend-independent");
             ensure!(ctx, (v.0 == "Ok") == (a.0 == "Ok") && v.1 == a.1, "morphisms-backend-independent", "morphism outcome {:?} at VecKind but {:?} at the second backend", v, a);
             finish(ctx, cfg, used, hash64(&(&h, &g, &w, &keep)), ctx.dump.replace('\n', " ; "));
